@@ -366,6 +366,16 @@ def run_cases(modname, cases, want_model=True, chunk=None, deadline=None):
             if deadline and time.time() > deadline:
                 break
         return summaries, errors
+    if os.environ.get("VERIF_TIECOV"):
+        # tools/tiecov.py measures which lines of /repo/trie the runs reach: the workers must exit
+        # normally so that the coverage data they collected is saved
+        pool = multiprocessing.Pool(n)
+        for s, e in pool.imap(_worker, jobs):
+            summaries += s
+            errors += e
+        pool.close()
+        pool.join()
+        return summaries, errors
     with multiprocessing.Pool(n) as pool:
         for s, e in pool.imap(_worker, jobs):
             summaries += s
